@@ -96,7 +96,7 @@ func runC05(ci interface{}) Result {
 		height = sc.Cfg.Width
 	}
 	if sc.Cfg.PtyRows > 0 {
-		height = sc.Cfg.PtyRows
+		height = sc.Cfg.PtyRows - 1
 	}
 	allRows := 0
 	for _, b := range sc.Bars {
@@ -168,6 +168,27 @@ func runC05(ci interface{}) Result {
 				}
 				if len(got) != len(want) && sc.Bars != nil {
 					// the number of visible bars can differ too when groups have different heights
+				}
+				continue
+			}
+			if sim.Clipped {
+				// how many rows fit is C04's business: every bar the model expects
+				// must be there, nothing outside the container may be
+				inHeap := map[int]bool{}
+				for _, b := range sim.Frames[k].Order {
+					inHeap[b] = true
+				}
+				for b := range got {
+					if !inHeap[b] {
+						r.Err, r.Kind = fmt.Errorf("frame %d shows bar %d which is not in the container (model: %v)", k, b, sim.Frames[k].Order), "membership"
+						return r
+					}
+				}
+				for b := range want {
+					if !got[b] {
+						r.Err, r.Kind = fmt.Errorf("frame %d does not show bar %d (shown %v, model expects %v; frame %q)", k, b, sortedInts(got), sortedInts(want), f.Raw), "membership"
+						return r
+					}
 				}
 				continue
 			}
